@@ -4,18 +4,21 @@
    Model: Model/Diag.v (diagnostics_manager.go), Model/Events.v (handlers, HandleFileEventChanges, file index, error
    collection); the per-file analyses are the fields of `analysis` (any instance satisfying `analysis_ok`).
    Spec: Spec/FreshStart.v (`fresh_view`, `demanded`, `conformant`, the finding classes, `guard`).
-   `fixes` switches the repairs on: `deployed` (Model/Events.v) = the code as it is now (six repairs), `round1` = the
-   code after round 1 (four repairs), `no_fix` = the code before any fix: commit. General theorems are quantified over
-   all flag values. *)
+   `fixes` switches the repairs on: `deployed` (Model/Events.v) = the code as it is now (seven repairs), `round2` = without
+   the outside-file repair, `round1` = the code after round 1 (four repairs), `no_fix` = the code before any fix: commit.
+   General theorems are quantified over all flag values. *)
 From Coq Require Import List NArith Bool Permutation.
 From LH Require Import Model.Diag Model.Events Spec.FreshStart.
 From LH Require Import Proofs.EventsTracks Proofs.EventsIndex Proofs.EventsInv Proofs.EventsToy Proofs.EventsToyOk.
 Import ListNotations.
 Local Open Scope N_scope.
 
-(* ---- the full statement of the property on the model of the code as it is now (`deployed`). It is PROVED for every
-        history whose actions name workspace files only (C08_full_workspace below) and FALSE in general: the one
-        finding class that is still open is outside_file (C08_outside_file_refuted, C08_full_refuted) ---- *)
+(* ---- the full statement of the property on the model of the code as it is now (`deployed`): PROVED below
+        (C08_full_proved; C08_full_every_file is the stronger form that also covers the files without unsaved edits while
+        another buffer is unsaved). `demanded` compares with a server freshly started on the current disk and told about
+        the documents outside the workspace that are open (Spec/FreshStart.v fresh_view_open; C08_fresh_reopen ties it to
+        the model's own server start followed by didOpen; with no such document open it is the plain start,
+        C08_incremental_eq_fresh_plain) ---- *)
 Definition C08_full : Prop :=
   forall (A : analysis), analysis_ok A ->
   forall (dk : amap (text A)) (h : list (action A)),
@@ -42,34 +45,73 @@ Theorem C08_index_refines :
 Proof. exact index_refines. Qed.
 Print Assumptions C08_index_refines.
 
-(* ---- T1, the property for the code as it is now: EVERY conformant history over workspace files (no class guard
-        left: all six repaired classes are impossible under `deployed`), every file, with or without unsaved edits ---- *)
+(* ---- T1, the property for the code as it is now: EVERY conformant history (no class guard left: all seven finding
+        classes are impossible under `deployed`), every file, with or without unsaved edits ---- *)
+Theorem C08_full_every_file :
+  forall (A : analysis), analysis_ok A ->
+  forall (dk : amap (text A)) (h : list (action A)),
+    conformant A deployed dk h = true ->
+    forall f, Permutation (view (snd (run A deployed dk h)) f) (demanded A deployed (fst (run A deployed dk h)) f).
+Proof. exact deployed_view. Qed.
+Print Assumptions C08_full_every_file.
+
+Theorem C08_full_proved : C08_full.
+Proof. exact (fun A HA dk h Hc f _ => deployed_view A HA dk h Hc f). Qed.
+Print Assumptions C08_full_proved.
+
+(* the same for the histories that name workspace files only (the statement of round 2, kept: it does not need the
+   outside-file repair, see C08_guarded_round2) *)
 Theorem C08_full_workspace :
   forall (A : analysis), analysis_ok A ->
   forall (dk : amap (text A)) (h : list (action A)),
     conformant A deployed dk h = true -> inside_only A h = true ->
     forall f, Permutation (view (snd (run A deployed dk h)) f) (demanded A deployed (fst (run A deployed dk h)) f).
-Proof. exact deployed_view. Qed.
+Proof. exact (fun A HA dk h Hc _ => deployed_view A HA dk h Hc). Qed.
 Print Assumptions C08_full_workspace.
 
-(* no document has unsaved edits  =>  the client holds what a fresh start on the current files publishes *)
+(* no document has unsaved edits  =>  the client holds what a fresh start on the current files (told about the open
+   documents outside the workspace) publishes *)
 Theorem C08_incremental_eq_fresh_deployed :
   forall (A : analysis), analysis_ok A ->
   forall (dk : amap (text A)) (h : list (action A)),
-    conformant A deployed dk h = true -> inside_only A h = true -> dirty (fst (run A deployed dk h)) = [] ->
-    forall f, Permutation (view (snd (run A deployed dk h)) f) (fresh_view A deployed (disk (fst (run A deployed dk h))) f).
-Proof. exact (fun A HA dk h Hc Hi => incremental_eq_fresh A deployed HA dk h (deployed_guard A dk h Hc Hi)). Qed.
+    conformant A deployed dk h = true -> dirty (fst (run A deployed dk h)) = [] ->
+    forall f, Permutation (view (snd (run A deployed dk h)) f) (fresh_view_open A deployed (fst (run A deployed dk h)) f).
+Proof. exact (fun A HA dk h Hc => incremental_eq_fresh A deployed HA dk h (deployed_guard A dk h Hc)). Qed.
 Print Assumptions C08_incremental_eq_fresh_deployed.
+
+(* ... and when every open document lies in the workspace that is the plain server start on the disk *)
+Theorem C08_incremental_eq_fresh_plain :
+  forall (A : analysis), analysis_ok A ->
+  forall (dk : amap (text A)) (h : list (action A)),
+    conformant A deployed dk h = true -> dirty (fst (run A deployed dk h)) = [] ->
+    (forall g, member A deployed (fst (run A deployed dk h)) g = in_dir A g) ->
+    forall f, Permutation (view (snd (run A deployed dk h)) f) (fresh_view A deployed (disk (fst (run A deployed dk h))) f).
+Proof.
+  exact (fun A HA dk h Hc Hd Hm f =>
+           eq_ind _ (fun x => Permutation (view (snd (run A deployed dk h)) f) x)
+                  (incremental_eq_fresh A deployed HA dk h (deployed_guard A dk h Hc) Hd f) _
+                  (fresh_view_open_plain A deployed _ f Hm)).
+Qed.
+Print Assumptions C08_incremental_eq_fresh_plain.
+
+(* fresh_view_open is what the (model of the) server shows after a start on the disk followed by didOpen of documents *)
+Theorem C08_fresh_reopen :
+  forall (A : analysis), analysis_ok A ->
+  forall (dk : amap (text A)) (l : list file) (f : file),
+    Permutation (view (snd (run A deployed dk (map (@AOpen A) l))) f)
+                (fresh_view_open A deployed (fst (run A deployed dk (map (@AOpen A) l))) f).
+Proof. exact fresh_reopen. Qed.
+Print Assumptions C08_fresh_reopen.
 
 (* a buffer with unsaved edits shows its own syntax errors if it has any, else the last saved non-syntax diagnostics *)
 Theorem C08_unsaved_view_deployed :
   forall (A : analysis), analysis_ok A ->
   forall (dk : amap (text A)) (h : list (action A)) (f : file),
-    conformant A deployed dk h = true -> inside_only A h = true -> In f (dirty (fst (run A deployed dk h))) ->
+    conformant A deployed dk h = true -> In f (dirty (fst (run A deployed dk h))) ->
     exists b, aget (ebuf (fst (run A deployed dk h))) f = Some b /\
               Permutation (view (snd (run A deployed dk h)) f)
-                          (if is_nil (syn A b) then nonsyn (fresh_view A deployed (disk (fst (run A deployed dk h))) f) else syn A b).
-Proof. exact (fun A HA dk h f Hc Hi => unsaved_view A deployed HA dk h f (deployed_guard A dk h Hc Hi)). Qed.
+                          (if is_nil (syn A b) then nonsyn (fresh_view_open A deployed (fst (run A deployed dk h)) f) else syn A b).
+Proof. exact (fun A HA dk h f Hc => unsaved_view A deployed HA dk h f (deployed_guard A dk h Hc)). Qed.
 Print Assumptions C08_unsaved_view_deployed.
 
 (* ---- T1, guarded, for every combination of repair flags: `guard` = editor discipline (`conformant`) and none of the
@@ -84,22 +126,24 @@ Theorem C08_guarded :
 Proof. exact guarded_view. Qed.
 Print Assumptions C08_guarded.
 
-(* the instance for the code as it is now: the guard excludes outside_file only; the other six classes are constantly
-   false under `deployed` (C08_repaired_classes_gone), which is how C08_full_workspace follows *)
-Theorem C08_guarded_deployed :
+(* the instance for the code without the outside-file repair: the guard excludes outside_file only; the other six classes
+   are constantly false (C08_repaired_classes_gone) *)
+Theorem C08_guarded_round2 :
   forall (A : analysis), analysis_ok A ->
   forall (dk : amap (text A)) (h : list (action A)),
-    guard A deployed dk h = true ->
-    forall f, Permutation (view (snd (run A deployed dk h)) f) (demanded A deployed (fst (run A deployed dk h)) f).
-Proof. exact (fun A => guarded_view A deployed). Qed.
-Print Assumptions C08_guarded_deployed.
+    conformant A round2 dk h = true -> inside_only A h = true ->
+    forall f, Permutation (view (snd (run A round2 dk h)) f) (demanded A round2 (fst (run A round2 dk h)) f).
+Proof.
+  exact (fun A HA dk h Hc Hi => guarded_view A round2 HA dk h (repaired_guard A round2 dk h eq_refl (or_intror Hi) Hc)).
+Qed.
+Print Assumptions C08_guarded_round2.
 
 (* no document has unsaved edits  =>  the client holds what a fresh start on the current files publishes *)
 Theorem C08_incremental_eq_fresh :
   forall (A : analysis) (fx : fixes), analysis_ok A ->
   forall (dk : amap (text A)) (h : list (action A)),
     guard A fx dk h = true -> dirty (fst (run A fx dk h)) = [] ->
-    forall f, Permutation (view (snd (run A fx dk h)) f) (fresh_view A fx (disk (fst (run A fx dk h))) f).
+    forall f, Permutation (view (snd (run A fx dk h)) f) (fresh_view_open A fx (fst (run A fx dk h)) f).
 Proof. exact incremental_eq_fresh. Qed.
 Print Assumptions C08_incremental_eq_fresh.
 
@@ -110,7 +154,7 @@ Theorem C08_unsaved_view :
     guard A fx dk h = true -> In f (dirty (fst (run A fx dk h))) ->
     exists b, aget (ebuf (fst (run A fx dk h))) f = Some b /\
               Permutation (view (snd (run A fx dk h)) f)
-                          (if is_nil (syn A b) then nonsyn (fresh_view A fx (disk (fst (run A fx dk h))) f) else syn A b).
+                          (if is_nil (syn A b) then nonsyn (fresh_view_open A fx (fst (run A fx dk h)) f) else syn A b).
 Proof. exact unsaved_view. Qed.
 Print Assumptions C08_unsaved_view.
 
@@ -162,20 +206,22 @@ Theorem C08_index_refines_repaired :
 Proof. vm_compute. reflexivity. Qed.
 Print Assumptions C08_index_refines_repaired.
 
-(* ---- still open ---- *)
-(* a file outside the workspace (p) is opened and closed again: its global keeps suppressing a's warning *)
+(* ---- repaired last (fixes/C08-outside-file.diff): a document outside the workspace joins and leaves the project like any
+        other file ---- *)
+(* a file outside the workspace (p) is opened and closed again: while it is open its global is seen (as after a fresh
+   start followed by didOpen p), after didClose a's warning is back *)
 Definition w_outside_dk : amap (list stmt) := [(0, [SU 1]); (4, [SD 1])].
 Definition w_outside : list (action toyA) := [AOpen 4; AOpen 0; AChange 0 [SC; SU 1]; ASave 0; AClose 4].
-Theorem C08_outside_file_refuted : refutes deployed 1 w_outside_dk w_outside 0.
+Theorem C08_outside_file_repaired : toy_meets deployed w_outside_dk w_outside.
+Proof. repaired. Qed.
+Print Assumptions C08_outside_file_repaired.
+Example C08_outside_file_before_fix : refutes round2 1 w_outside_dk w_outside 0.
 Proof. refute. Qed.
-Print Assumptions C08_outside_file_refuted.
-
-Theorem C08_full_refuted : ~ C08_full.
-Proof.
-  intros H. destruct C08_outside_file_refuted as [Hc [_ [Hk Hn]]]. apply Hn.
-  apply (H toyA toy_ok w_outside_dk w_outside); [vm_compute; reflexivity|exact Hk].
-Qed.
-Print Assumptions C08_full_refuted.
+Example C08_outside_file_views :
+  view (snd (run toyA deployed w_outside_dk (firstn 1 w_outside))) 0 = [] /\
+  view (snd (run toyA deployed w_outside_dk w_outside)) 0 = [(2, 1, 1)] /\
+  view (snd (run toyA round2 w_outside_dk w_outside)) 0 = [].
+Proof. vm_compute. auto. Qed.
 
 (* ---- repaired in round 2 (fixes/C08-unhidden.diff, fixes/C08-watched-dirty.diff): the former witnesses meet the
         property at every file under `deployed`; on the model of the round-1 code they refute it ---- *)
@@ -228,13 +274,15 @@ Print Assumptions C08_empty_shortcut_repaired.
 Example C08_empty_shortcut_before_fix : refutes no_fix 7 w_empty_shortcut_dk w_empty_shortcut 0.
 Proof. refute. Qed.
 
-(* under `deployed` the six repaired classes never occur: their predicates are constantly false *)
+(* under `deployed` none of the seven classes occurs: their predicates are constantly false *)
 Theorem C08_repaired_classes_gone :
   forall (A : analysis) (w w' : world A) (a : action A),
     k_live_cleared A deployed w w' = false /\ k_close_revert A deployed w a = false /\
     k_empty_shortcut A deployed w a = false /\ k_unhidden A deployed w w' = false /\
     k_watched_dirty A deployed w a = false /\ k_stale_ref A deployed w' = false.
-Proof. exact repaired_classes_gone. Qed.
+Proof. exact (fun A w w' a => repaired_classes_gone A deployed w w' a eq_refl). Qed.
+Theorem C08_outside_class_gone : forall (A : analysis) (a : action A), k_outside A deployed a = false.
+Proof. reflexivity. Qed.
 Print Assumptions C08_repaired_classes_gone.
 
 (* ---- non-vacuity: a non-trivial history is conformant and names workspace files only (the hypotheses of
@@ -266,3 +314,18 @@ Example C08_guard_inhabited_mid :
   view (snd (run toyA deployed g_dk h2)) 0 = [] /\
   vget (saved (ds (sv (fst (run toyA deployed g_dk h2))))) 0 = [(1, 0, 0)].
 Proof. vm_compute. auto. Qed.
+
+(* the same history continued with a document outside the workspace (p, file 4): it is opened (its global g2 silences a's
+   warning at once, its own syntax error is shown), edited, saved and closed again (a's warning is back) *)
+Definition g_dk2 : amap (list stmt) := g_dk ++ [(4, [SD 2; SS])].
+Definition g_h2 : list (action toyA) :=
+  g_h ++ [AOpen 0; AOpen 4; AChange 4 [SD 2]; AChange 0 [SU 2; SU 1]; ASave 4; ASave 0; AClose 4; AClose 0].
+Example C08_guard_inhabited_outside :
+  conformant toyA deployed g_dk2 g_h2 = true /\ guard toyA deployed g_dk2 g_h2 = true /\
+  inside_only toyA g_h2 = false /\ dirty (fst (run toyA deployed g_dk2 g_h2)) = [] /\
+  view (snd (run toyA deployed g_dk2 (firstn 34 g_h2))) 0 = [(2, 0, 2)] /\
+  view (snd (run toyA deployed g_dk2 (firstn 35 g_h2))) 0 = [] /\
+  view (snd (run toyA deployed g_dk2 (firstn 35 g_h2))) 4 = [(1, 1, 0)] /\
+  view (snd (run toyA deployed g_dk2 (firstn 39 g_h2))) 0 = [(2, 1, 1)] /\
+  view (snd (run toyA deployed g_dk2 g_h2)) 0 = [(2, 0, 2); (2, 1, 1)] /\ view (snd (run toyA deployed g_dk2 g_h2)) 4 = [].
+Proof. vm_compute. auto 12. Qed.
